@@ -129,6 +129,9 @@ impl Property for C02 {
     fn tape_len(&self, _t: Tier) -> usize {
         460
     }
+    fn fuzz_runs(&self, _tier: Tier) -> u64 {
+        40_000
+    }
     fn random_cases(&self, tier: Tier) -> u64 {
         tier.pick(12_000, 80_000)
     }
